@@ -554,7 +554,7 @@ func runC01(r *Run) {
 	cycles := r.Scale(8, 0)
 	recycle := 2500 // calls after which a connection is replaced (bounds the wire tap's memory)
 	wireBudget := r.Scale(1500, 12000)
-	for _, topo := range []string{"direct", "demux", "proxy"} {
+	for _, topo := range []string{"direct", "demux", "proxy", "proxyshared"} {
 		if !r.Want("pairing." + topo) {
 			continue
 		}
@@ -567,6 +567,8 @@ func runC01(r *Run) {
 					return c01Demux(serialise, l)
 				case "proxy":
 					return c01Proxy(serialise, l)
+				case "proxyshared":
+					return c01ProxyShared(serialise, l)
 				}
 				return c01Direct(serialise)
 			}
